@@ -131,8 +131,15 @@ def run_proc(shape, call, check_equiv=True, shape_pred=None, max_paths=64, servi
             out.append(ProcResult(shape, "raises", "%s%s%s" % (p.value.cls_name, _args(p.value), _trace(p.value)), facts=facts))
             continue
         w, f, r = p.value
+        why = _ill_formed(w, r)
+        if why:
+            out.append(ProcResult(shape, "invalid", "the result is not a well-formed formula: " + why, facts=facts))
+            continue
         if post is not None:
-            pr = post(w, f, r, facts)
+            try:
+                pr = post(w, f, r, facts)
+            except Unsupported as e:
+                pr = ProcResult(shape, "unsupported", "judging the result: %s" % e, facts=facts)
             if pr is not None:
                 out.append(pr)
                 continue
@@ -151,6 +158,36 @@ def run_proc(shape, call, check_equiv=True, shape_pred=None, max_paths=64, servi
         else:
             out.append(ProcResult(shape, "valid", "shape only", rs, facts))
     return out
+
+
+def _ill_formed(w, r, _budget=4000):
+    """A quantifier whose 'variables' are not symbols (a binder rewritten like an ordinary occurrence) is no formula; looks
+    into tuples / lists / dicts of nodes as returned by the procedures."""
+    todo, seen = [r], set()
+    while todo and _budget > 0:
+        _budget -= 1
+        n = todo.pop()
+        if isinstance(n, (tuple, list, set, frozenset)):
+            todo.extend(n)
+            continue
+        if isinstance(n, dict):
+            todo.extend(n.keys())
+            todo.extend(n.values())
+            continue
+        try:
+            if not w.is_node(n) or id(n) in seen:
+                continue
+            seen.add(id(n))
+            if w.opname(n) in ("FORALL", "EXISTS"):
+                for v in w.npayload(n):
+                    if not w.is_node(v) or w.opname(v) != "SYMBOL":
+                        return "a quantifier binds %s, which is not a variable" % (sc.node_str(w, v) if w.is_node(v) else repr(v),)
+            todo.extend(w.nargs(n))
+        except Unsupported:
+            return None
+        except Exception:
+            return None
+    return None
 
 
 def _trace(ex):
